@@ -1,16 +1,23 @@
 ------------------------------ MODULE CcDisplay ------------------------------
 (* Closed Caption display memories, a reference machine written from EIA-608-B / 47 CFR 15.119
-   for the caption channels CC1..CC4 (CC1/CC2 on field 1, CC3/CC4 on field 2).  The decoder
-   under test is vbi_decode_caption()/caption_command() in src/caption.c (through vbi_decode)
-   read back with vbi_fetch_cc_page().
+   for the eight channels: 1..4 = CC1..CC4 (CC1/CC2 on field 1, CC3/CC4 on field 2), 5..8 = T1..T4
+   (T1/T2 on field 1, T3/T4 on field 2).  The decoder under test is vbi_decode_caption() /
+   caption_command() in src/caption.c (through vbi_decode) read back with vbi_fetch_cc_page()
+   (pages 1..8).
 
    One action per received byte pair.  Per channel: mode, displayed and non-displayed memory
-   (15 rows x 32 columns), cursor, pen (colour, underline, italic), roll-up depth and base row.
-   Text goes to the non-displayed memory in pop-on mode and to the displayed memory in roll-up
-   and paint-on mode.  Visible(ch) is the displayed memory; the statement requires it to match the
-   fetched page at the points where the standard makes content visible: after end-of-caption and
-   erase-displayed-memory in pop-on mode, after a completed word or any control code otherwise
-   (vis marks those points).
+   (15 rows x 32 columns), cursor, pen (colour, underline, italic, flash, background colour, background
+   opacity), roll-up depth and base row.  Text goes to the non-displayed memory in pop-on mode and to the
+   displayed memory in roll-up, paint-on and text mode.  Visible(ch) is the displayed memory; the statement
+   requires it to match the fetched page at the points where the standard makes content visible: after
+   end-of-caption and erase-displayed-memory in pop-on mode, after a completed word or any control code
+   otherwise (vis marks those points).
+
+   A control pair carries a DATA CHANNEL (1..4: field and channel bit), not a service.  The mode commands name the
+   service: RCL, RUx, RDC, EOC the caption channel of the data channel, TR and RTD its text channel.  Every
+   other code belongs to the caption or the text channel of its data channel according to the mode the data
+   stream of its field is in (EIA-608-B 7.7: text mode lasts until the next caption mode command); EDM and ENM
+   always act on the caption channel and do not end text mode (7.7, Annex B.7).
 
    Rules taken from the standard (section numbers of 47 CFR 15.119 / EIA-608-B):
    * (f)(1)(v)  the cursor advances after every character; once it has reached column 32 it stays
@@ -18,7 +25,8 @@
    * (f)(1)(vi) BS moves the cursor one column to the left and erases that cell; ignored in column 1.
                 (So after a character was written in column 32 the cursor is still in column 32 and BS
                 erases column 31.)
-   * (f)(1)(vii), (f)(2)(iii), (f)(3)(ii)  DER erases the cursor cell and all cells to its right.
+   * (f)(1)(vii), (f)(2)(iii), (f)(3)(ii), 608-B 7.4  DER erases the cursor cell and all cells to its right
+                (all caption modes and text mode).
    * (e)(1)(ii) TO1-3 move the cursor 1-3 columns to the right, not beyond column 32; nothing is erased.
    * (f)(1)(ii) roll-up: RUx from another mode erases both memories, base row 15, cursor column 1;
                 a PAC with another row moves the whole window to the new base row at once; Annex C.4:
@@ -29,23 +37,37 @@
    * (i)        a control pair is sent twice in succession on field 1; the second pair is ignored when
                 it follows the first IMMEDIATELY - a third identical pair is a new command, and a pair
                 that follows text or a null (fill) pair is a new command as well.
-
    * (f)(2)(i), (f)(3)(i)  CR has no effect in pop-on and paint-on mode.
    * (e)(1)     a PAC indent and a tab offset move the cursor, they erase nothing.
-   * every field is a data stream of its own with its own current channel.
+   * every field is a data stream of its own with its own current channel and its own caption / text mode.
+   * (h)(1)(i), 608-B 6.2  mid-row codes, Flash On and the background / foreground attribute codes are spacing
+                attributes: they occupy a cell that shows as a space, the attribute holds from that cell on.
+   * (h)(1)(ii) the italics mid-row code keeps the colour, a colour mid-row code turns italics off.
+   * (h)(1)(iii) Flash On turns flash on; every mid-row code turns it off; a PAC starts with flash off.
+   * 608-B 6.2  background attribute codes (10/18 20-2F): background colour, opaque or semi-transparent; 17/1F 2D:
+                background transparent; 17/1F 2E, 2F: foreground black (underlined).  They incorporate a backspace:
+                the cell of the standard space transmitted before the code is replaced by the attribute's space,
+                the cursor ends where it was.  A PAC starts with a black opaque background; mid-row codes and
+                Flash On leave the background alone.
+   * 608-B 7.4, (e)(1)  text mode: RTD selects the text channel and resumes at the cursor; TR selects it, erases the
+                text memory and puts the cursor on the top left; characters, mid-row codes, BS, DER, TOx work as in
+                captions; the row of a PAC is ignored, its indent and attributes are used; CR moves to column 1 of
+                the next row, on the last row the text rolls up one row (the top row is lost).  TextRows: the window
+                has 7..15 rows at the decoder's choice ((d)(2)); vbi_fetch_cc_page returns a page of 15 rows.
 
    Covered codes: RCL, RU2/3/4, RDC, EOC, EDM, ENM, CR, BS, DER, TO1-3, PAC (15 rows, 8 indents, colour, italics,
-   underline), mid-row codes, printable characters incl. one special character, control codes repeated 1..4 times
-   on field 1, null pairs, channels and fields interleaved.
-   Not generated: text channels T1-T4, background attributes, FON, extended characters; the inputs named by the
-   clauses of Violated (PAC moving a NON-EMPTY roll-up window, change of roll-up depth without mode change, mode changes
-   over non-empty memories, EOC flipping back to a caption that was not erased, cursor relative codes directly after
-   EOC) - caption.c is known to leave the standard there, doc/notes-C08.md; with the clause in Beyond they are generated
-   and the divergence is reported as the known finding of the clause.  The pen is the simple one (PAC and mid-row codes
-   set it, characters use it): the attribute inheritance rules of EIA-608-B Annex C.7 / C.14 are not modelled.  *)
+   underline), mid-row codes, FON, background attribute codes (16), BT, FA / FAU, TR, RTD, printable characters incl.
+   one special character, control codes repeated 1..4 times on field 1, null pairs, channels and fields interleaved.
+   Not generated: extended characters, the special character "transparent space"; the inputs named by the clauses of
+   Violated / TextViolated.  The clauses "move", "resize", "flip", "work", "fresh" are places where caption.c is known to
+   leave the standard (doc/notes-C08.md); with the clause in Beyond they are generated and the divergence is reported as
+   the known finding of the clause.  The other clauses ("select", "xmode", "bgsp", "bg32", "fa", "bgrow", "rowpen") are
+   inputs the standard does not decide (two readings) or forbids the transmitter to send.  The pen is the simple one (PAC,
+   mid-row and attribute codes set it, characters use it): the attribute inheritance rules of EIA-608-B Annex C.7 / C.14
+   are not modelled.  *)
 EXTENDS Naturals, Integers, Sequences, FiniteSets, TLC
 
-CONSTANTS Chans,        \* subset of 1..4
+CONSTANTS Chans,        \* channels in use: subset of 1..8 (5..8 = T1..T4)
           Rows,         \* rows used by PACs (0..14)
           Chars,        \* printable codes used
           MaxPairs,
@@ -53,33 +75,49 @@ CONSTANTS Chans,        \* subset of 1..4
           Depths,       \* roll-up depths used (subset of {2, 3, 4})
           Tabs,         \* tab offsets used (subset of {1, 2, 3})
           Kinds,        \* control code classes used: subset of AllKinds; "PACX" adds the coloured / italic /
-                        \* underlined PAC variants, "NULL" the null pairs, "TEXT" the character pairs
+                        \* underlined PAC variants, "BAOX" all 16 background attribute codes, "NULL" the null pairs,
+                        \* "TEXT" the character pairs
           Beyond        \* exclusion clauses (see Violated) that are lifted: {} for the sub-language the check decides
 
-AllKinds == {"RCL", "RDC", "EOC", "EDM", "ENM", "CR", "BS", "DER", "RU", "TO", "PAC", "PACX", "MID", "SPC", "NULL", "TEXT"}
+AllKinds == {"RCL", "RDC", "EOC", "EDM", "ENM", "CR", "BS", "DER", "RU", "TO", "PAC", "PACX", "MID", "SPC", "NULL", "TEXT",
+             "FON", "BAO", "BAOX", "BT", "FA", "TR", "RTD"}
 
-Empty == [u |-> 0, fg |-> 0, ul |-> FALSE, it |-> FALSE]
+\* opacity as in vbi_opacity: 0 transparent space (an empty cell), 1 transparent background, 2 semi-transparent, 3 opaque
+Opaque == 3
+Empty == [u |-> 0, fg |-> 0, ul |-> FALSE, it |-> FALSE, fl |-> FALSE, bg |-> 0, op |-> 0]
 Cols == 1..32
-Pen0 == [fg |-> 7, ul |-> FALSE, it |-> FALSE]
+TextRows == 15
+Pen0 == [fg |-> 7, ul |-> FALSE, it |-> FALSE, fl |-> FALSE, bg |-> 0, op |-> Opaque]
 Row0 == [c \in Cols |-> Empty]
 Mem0 == [r \in 0..14 |-> Row0]
-\* stale / fresh are ghosts used by Legal only: stale = the non-displayed memory holds the caption that was
-\* displayed before the last EOC and was not erased since; fresh = no PAC / RUx since the last EOC
+\* stale / fresh / nopac are ghosts used by Legal only: stale = the non-displayed memory holds the caption that was
+\* displayed before the last EOC and was not erased since; fresh = no PAC / RUx since the last EOC; nopac = the cursor
+\* row was started by CR, TR or RUx and no PAC was received since; tinted = a background attribute code was executed for the
+\* channel (only then a memory can hold a cell with a background attribute: invariant TintedOK)
 Chan0 == [mode |-> "none", disp |-> Mem0, nond |-> Mem0, row |-> 14, col |-> 1, pen |-> Pen0, roll |-> 0, base |-> 14,
-          stale |-> FALSE, fresh |-> FALSE]
+          stale |-> FALSE, fresh |-> FALSE, nopac |-> FALSE, tinted |-> FALSE]
+\* a text channel is always in text mode; 608-B 7.4: the cursor starts at the topmost row, column 1
+TChan0 == [Chan0 EXCEPT !.mode = "text", !.row = 0, !.base = TextRows - 1, !.roll = TextRows]
 
 VARIABLES ch,          \* per channel state
-          cur,         \* per field (1, 2): current channel of that field (0: none selected yet)
+          cur,         \* per field (1, 2): the channel the last control pair of that field addressed (0: none yet)
           last,        \* last control pair received on field 1 if the next pair may be its repetition, or <<>>
           vis,         \* channels whose displayed memory is at a visibility point after this pair
           ev,          \* channels whose visible page changed with this pair (caption event expected)
-          lm,          \* ghost: per field the channel of its last mode command (RCL, RUx, RDC, EOC), 0: none
+          lm,          \* per field the channel of its last mode command (RCL, RUx, RDC, EOC, TR, RTD), 0: none;
+                       \* lm[f] > 4: the data stream of the field is in text mode
+          dm,          \* ghost: per data channel the class of its last mode command ("none", "cap", "text")
           np, lastAct
-vars == <<ch, cur, last, vis, ev, lm, np, lastAct>>
+vars == <<ch, cur, last, vis, ev, lm, dm, np, lastAct>>
 
-FieldOf(c) == IF c <= 2 THEN 1 ELSE 2
-Init == /\ ch = [c \in Chans |-> Chan0] /\ cur = [f \in {1, 2} |-> 0] /\ last = <<>>
-        /\ vis = {} /\ ev = {} /\ lm = [f \in {1, 2} |-> 0] /\ np = 0 /\ lastAct = [a |-> "init"]
+\* c: a channel 1..8 or a data channel 1..4
+DataOf(c) == IF c > 4 THEN c - 4 ELSE c
+FieldOf(c) == IF DataOf(c) <= 2 THEN 1 ELSE 2
+DChans == {DataOf(c) : c \in Chans}
+Fields == {FieldOf(c) : c \in Chans}
+Init == /\ ch = [c \in Chans |-> IF c > 4 THEN TChan0 ELSE Chan0] /\ cur = [f \in {1, 2} |-> 0] /\ last = <<>>
+        /\ vis = {} /\ ev = {} /\ lm = [f \in {1, 2} |-> 0] /\ dm = [d \in 1..4 |-> "none"]
+        /\ np = 0 /\ lastAct = [a |-> "init"]
 
 \* memory that receives text
 Target(s) == IF s.mode = "pop" THEN "nond" ELSE "disp"
@@ -89,14 +127,20 @@ Put(s, cell) ==     \* write a cell at the cursor and advance; in column 32 the 
       mem1 == [mem EXCEPT ![s.row][s.col] = cell]
       s1 == IF m = "nond" THEN [s EXCEPT !.nond = mem1] ELSE [s EXCEPT !.disp = mem1]
   IN [s1 EXCEPT !.col = IF s.col < 32 THEN s.col + 1 ELSE 32]
-Glyph(s, u) == [u |-> u, fg |-> s.pen.fg, ul |-> s.pen.ul, it |-> s.pen.it]
+Glyph(s, u) == [u |-> u, fg |-> s.pen.fg, ul |-> s.pen.ul, it |-> s.pen.it, fl |-> s.pen.fl, bg |-> s.pen.bg, op |-> s.pen.op]
 SetMem(s, mem) == IF Target(s) = "nond" THEN [s EXCEPT !.nond = mem] ELSE [s EXCEPT !.disp = mem]
 GetMem(s) == IF Target(s) = "nond" THEN s.nond ELSE s.disp
+\* a spacing attribute that incorporates a backspace (608-B 6.2): the cell left of the cursor becomes the attribute's
+\* space, the cursor ends where it was (in column 1 there is nothing to step back over: the space is stored there)
+PutBack(s) == IF s.col = 1 THEN Put(s, Glyph(s, 32))
+              ELSE SetMem(s, [GetMem(s) EXCEPT ![s.row][s.col - 1] = Glyph(s, 32)])
 
 \* base row a PAC for `row` selects for a roll-up window of depth n: the window stays on the screen
 ClampBase(row, n) == IF row < n - 1 THEN n - 1 ELSE row
 \* the roll-up window (depth n, base row b) moved to base row nb; everything else is blank
 MoveWindow(mem, n, b, nb) == [r \in 0..14 |-> IF r > nb - n /\ r <= nb /\ r - (nb - b) \in 0..14 THEN mem[r - (nb - b)] ELSE Row0]
+\* the row a PAC puts the cursor on
+PacRow(s, code) == IF s.mode = "roll" THEN ClampBase(code.row, s.roll) ELSE IF s.mode = "text" THEN s.row ELSE code.row
 
 \* effect of a control code on channel state s
 Do(s, code) ==
@@ -108,65 +152,112 @@ Do(s, code) ==
                                ELSE [s EXCEPT !.roll = code.n,    \* (f)(1)(iv): the rows that leave the window are erased
                                               !.disp = [r \in 0..14 |-> IF r > s.base - s.roll /\ r <= s.base - code.n THEN Row0 ELSE s.disp[r]]])
                          ELSE [s EXCEPT !.mode = "roll", !.roll = code.n, !.disp = Mem0, !.nond = Mem0,
-                                        !.base = 14, !.row = 14, !.col = 1, !.stale = FALSE, !.fresh = FALSE]
+                                        !.base = 14, !.row = 14, !.col = 1, !.stale = FALSE, !.fresh = FALSE, !.nopac = TRUE]
     [] code.k = "EOC" -> [s EXCEPT !.mode = "pop", !.disp = s.nond, !.nond = s.disp, !.stale = (s.disp # Mem0), !.fresh = TRUE]
     [] code.k = "EDM" -> [s EXCEPT !.disp = Mem0]
     [] code.k = "ENM" -> [s EXCEPT !.nond = Mem0, !.stale = FALSE]
-    [] code.k = "CR"  -> IF s.mode # "roll" THEN s
-                         ELSE LET top == s.base - s.roll + 1 IN
+    \* 608-B 7.4: RTD resumes the text where it stood; TR erases the text memory, cursor on the top left
+    [] code.k = "RTD" -> s
+    [] code.k = "TR"  -> [s EXCEPT !.disp = Mem0, !.row = 0, !.col = 1, !.nopac = TRUE]
+    [] code.k = "CR"  -> IF s.mode = "roll"
+                         THEN LET top == s.base - s.roll + 1 IN
                               [s EXCEPT !.disp = [r \in 0..14 |->
                                           IF r >= top /\ r < s.base THEN s.disp[r + 1]
                                           ELSE IF r = s.base THEN Row0 ELSE s.disp[r]],
-                                        !.col = 1]
+                                        !.col = 1, !.nopac = TRUE]
+                         ELSE IF s.mode = "text"
+                         THEN (IF s.row < TextRows - 1
+                               THEN [s EXCEPT !.row = s.row + 1, !.col = 1, !.nopac = TRUE]
+                               ELSE [s EXCEPT !.disp = [r \in 0..14 |-> IF r < TextRows - 1 THEN s.disp[r + 1] ELSE Row0],
+                                              !.col = 1, !.nopac = TRUE])
+                         ELSE s
     [] code.k = "BS"  -> IF s.mode = "none" \/ s.col = 1 THEN s
                          ELSE SetMem([s EXCEPT !.col = s.col - 1], [GetMem(s) EXCEPT ![s.row][s.col - 1] = Empty])
     [] code.k = "DER" -> IF s.mode = "none" THEN s
                          ELSE SetMem(s, [GetMem(s) EXCEPT ![s.row] = [c \in Cols |-> IF c >= s.col THEN Empty ELSE @[c]]])
     [] code.k = "TO"  -> IF s.mode = "none" THEN s ELSE [s EXCEPT !.col = IF s.col + code.n > 32 THEN 32 ELSE s.col + code.n]
     [] code.k = "PAC" -> IF s.mode = "none" THEN s
-                         ELSE LET pen == [fg |-> code.fg, ul |-> code.ul, it |-> code.it] IN
+                         \* a PAC starts with flash off and a black opaque background
+                         ELSE LET pen == [fg |-> code.fg, ul |-> code.ul, it |-> code.it, fl |-> FALSE, bg |-> 0, op |-> Opaque] IN
                               IF s.mode = "roll"
                               THEN LET nb == ClampBase(code.row, s.roll) IN
                                    [s EXCEPT !.disp = IF nb = s.base THEN @ ELSE MoveWindow(@, s.roll, s.base, nb),
-                                             !.base = nb, !.row = nb, !.col = code.indent + 1, !.pen = pen, !.fresh = FALSE]
-                              ELSE [s EXCEPT !.row = code.row, !.col = code.indent + 1, !.pen = pen, !.fresh = FALSE]
+                                             !.base = nb, !.row = nb, !.col = code.indent + 1, !.pen = pen, !.fresh = FALSE, !.nopac = FALSE]
+                              ELSE IF s.mode = "text"     \* (e)(1), 608-B 7.4: the row is ignored
+                              THEN [s EXCEPT !.col = code.indent + 1, !.pen = pen, !.nopac = FALSE]
+                              ELSE [s EXCEPT !.row = code.row, !.col = code.indent + 1, !.pen = pen, !.fresh = FALSE, !.nopac = FALSE]
     [] code.k = "MID" -> IF s.mode = "none" THEN s
-                         \* (h)(1)(ii): the italics mid-row code keeps the colour, a colour mid-row code turns italics off
-                         ELSE LET s1 == [s EXCEPT !.pen = [fg |-> IF code.it THEN s.pen.fg ELSE code.fg, ul |-> code.ul, it |-> code.it]] IN
+                         \* (h)(1)(ii): the italics mid-row code keeps the colour, a colour mid-row code turns italics off;
+                         \* (h)(1)(iii): every mid-row code turns flash off
+                         ELSE LET s1 == [s EXCEPT !.pen.fg = IF code.it THEN @ ELSE code.fg, !.pen.ul = code.ul, !.pen.it = code.it, !.pen.fl = FALSE] IN
                               Put(s1, Glyph(s1, 32))
+    [] code.k = "FON" -> IF s.mode = "none" THEN s
+                         ELSE LET s1 == [s EXCEPT !.pen.fl = TRUE] IN Put(s1, Glyph(s1, 32))
+    [] code.k = "BAO" -> IF s.mode = "none" THEN s
+                         ELSE PutBack([s EXCEPT !.pen.bg = code.bg, !.pen.op = IF code.semi THEN 2 ELSE Opaque, !.tinted = TRUE])
+    [] code.k = "BT"  -> IF s.mode = "none" THEN s ELSE PutBack([s EXCEPT !.pen.op = 1, !.tinted = TRUE])
+    [] code.k = "FA"  -> IF s.mode = "none" THEN s ELSE PutBack([s EXCEPT !.pen.fg = 0, !.pen.ul = code.ul])
     [] code.k = "SPC" -> IF s.mode = "none" THEN s ELSE Put(s, Glyph(s, code.u))
     [] OTHER -> s
 
-Quiet == {"SPC", "BS", "TO", "ENM"}     \* codes that are no visibility point (a special character is a printable character)
+\* codes that are no visibility point: a special character is a printable character, BS / TOx / ENM show nothing; BT and
+\* FA / FAU re-colour a space that was a completed word already (what they did shows at the next visibility point)
+Quiet == {"SPC", "BS", "TO", "ENM", "BT", "FA"}
+CapModes == {"RCL", "RU", "RDC", "EOC"}
+TextModes == {"TR", "RTD"}
+Producing == {"SPC", "MID", "FON", "BAO", "BT", "FA"}    \* codes that store a cell with the pen
+ModeKinds == {"RCL", "RU", "RDC", "EOC", "TR", "RTD"}
+CapSide == {"RCL", "RU", "RDC", "EOC", "EDM", "ENM"}       \* codes that name the caption channel whatever mode the field is in
+Addressed == {"RCL", "RU", "RDC", "EOC", "TR", "RTD", "EDM", "ENM"}
+BgKinds == {"BAO", "BT", "FA"}
+Relative == {"SPC", "MID", "BS", "DER", "TO", "FON", "BAO", "BT", "FA"}
 
-\* a control pair for channel c (field FieldOf(c)); on field 1 the immediate repetition of a pair is ignored
-IsRep(c, code) == FieldOf(c) = 1 /\ last = <<c, code>>
-Ctrl(c, code) ==
-  LET f == FieldOf(c)
-      rep == IsRep(c, code)
-  IN /\ np' = np + 1 /\ lastAct' = [a |-> "Ctrl", c |-> c, code |-> code]
-     /\ last' = IF f = 1 THEN (IF rep THEN <<>> ELSE <<c, code>>) ELSE last
-     /\ lm' = IF ~rep /\ code.k \in {"RCL", "RU", "RDC", "EOC"} THEN [lm EXCEPT ![f] = c] ELSE lm
+\* the channel a control pair for data channel d acts on
+InText(f) == lm[f] > 4
+TargetOf(d, code) == IF code.k \in TextModes THEN d + 4
+                     ELSE IF code.k \in CapSide THEN d
+                     ELSE IF InText(FieldOf(d)) THEN d + 4 ELSE d
+\* the channel the pair addresses as far as the selection of the current channel goes: EDM / ENM do not end text mode
+SelOf(d, code) == IF code.k \in {"EDM", "ENM"} /\ InText(FieldOf(d)) THEN d + 4 ELSE TargetOf(d, code)
+
+\* a control pair for data channel d (field FieldOf(d)); on field 1 the immediate repetition of a pair is ignored
+IsRep(d, code) == FieldOf(d) = 1 /\ last = <<d, code>>
+Ctrl(d, code) ==
+  LET f == FieldOf(d)
+      rep == IsRep(d, code)
+      t == TargetOf(d, code)
+      mode == code.k \in ModeKinds
+  IN /\ t \in Chans
+     /\ np' = np + 1 /\ lastAct' = [a |-> "Ctrl", c |-> d, code |-> code, t |-> t]
+     /\ last' = IF f = 1 THEN (IF rep THEN <<>> ELSE <<d, code>>) ELSE last
+     /\ lm' = IF ~rep /\ mode THEN [lm EXCEPT ![f] = t] ELSE lm
+     /\ dm' = IF ~rep /\ mode THEN [dm EXCEPT ![d] = IF t > 4 THEN "text" ELSE "cap"] ELSE dm
      /\ IF rep THEN UNCHANGED <<ch, cur>> /\ vis' = {} /\ ev' = {}
-        ELSE /\ ch' = [ch EXCEPT ![c] = Do(@, code)]
-             /\ cur' = [cur EXCEPT ![f] = c]
-             \* visibility points: addressing and mode commands, erasures, end of caption, a mid-row code (a space);
-             \* not: a special character (printable), backspace / tab offset / erase non-displayed memory
-             /\ vis' = IF code.k \in Quiet THEN {} ELSE {c}
-             /\ ev' = IF ch'[c].disp # ch[c].disp /\ code.k \notin Quiet THEN {c} ELSE {}
+        ELSE /\ ch' = [ch EXCEPT ![t] = Do(@, code)]
+             /\ cur' = [cur EXCEPT ![f] = SelOf(d, code)]
+             \* visibility points: addressing and mode commands, erasures, end of caption, a spacing attribute (a space);
+             \* not: the codes of Quiet
+             /\ vis' = IF code.k \in Quiet THEN {} ELSE {t}
+             /\ ev' = IF ch'[t].disp # ch[t].disp /\ code.k \notin Quiet THEN {t} ELSE {}
 
+\* "rowpen": a cell is stored on a row that was started without PAC (CR, TR, RUx) while the pen carries flash or a
+\* background attribute (608-B Annex C.14 / 6.2: a row without explicit attributes shows the defaults - the pen model and the
+\* positional reading differ)
+RowPen(s) == s.mode # "none" /\ s.nopac /\ (s.pen.fl \/ s.pen.bg # 0 \/ s.pen.op # Opaque)
 \* Characters go to the channel the field's last control pair addressed.  Whether a PAC or mid-row code for the other
 \* channel of the field re-selects the channel is read both ways (EIA-608-B 7.7 names the mode commands only): clause "select"
 \* keeps to streams on which both readings agree.  "fresh": see Violated.
 TextViolated(f) == IF cur[f] = 0 THEN {}
-                   ELSE (IF cur[f] # lm[f] THEN {"select"} ELSE {}) \cup (IF ch[cur[f]].fresh /\ ch[cur[f]].mode # "none" THEN {"fresh"} ELSE {})
+                   ELSE IF cur[f] # lm[f] THEN {"select"}
+                   ELSE (IF ch[cur[f]].fresh /\ ch[cur[f]].mode # "none" THEN {"fresh"} ELSE {})
+                        \cup (IF RowPen(ch[cur[f]]) THEN {"rowpen"} ELSE {})
 \* a pair of printable characters on field f (second may be 0 = none)
 Text(f, c1, c2) ==
   /\ np' = np + 1 /\ lastAct' = [a |-> "Text", f |-> f, c1 |-> c1, c2 |-> c2]
   /\ last' = IF f = 1 THEN <<>> ELSE last
-  /\ UNCHANGED <<cur, lm>>
+  /\ UNCHANGED <<cur, lm, dm>>
   /\ TextViolated(f) \subseteq Beyond
-  /\ IF cur[f] = 0 \/ ch[cur[f]].mode = "none" THEN UNCHANGED ch /\ vis' = {} /\ ev' = {}
+  /\ IF cur[f] \notin Chans \/ ch[cur[f]].mode = "none" THEN UNCHANGED ch /\ vis' = {} /\ ev' = {}
      ELSE LET c == cur[f]
               s1 == Put(ch[c], Glyph(ch[c], c1))
               s2 == IF c2 = 0 THEN s1 ELSE Put(s1, Glyph(s1, c2))
@@ -178,7 +269,7 @@ Text(f, c1, c2) ==
 \* a null (fill) pair; on field 1 it ends the window in which a control pair counts as repetition
 Null(f) == /\ np' = np + 1 /\ lastAct' = [a |-> "Null", f |-> f]
            /\ last' = IF f = 1 THEN <<>> ELSE last
-           /\ UNCHANGED <<ch, cur, lm>> /\ vis' = {} /\ ev' = {}
+           /\ UNCHANGED <<ch, cur, lm, dm>> /\ vis' = {} /\ ev' = {}
 
 K(k) == k \in Kinds
 Codes == (IF K("RCL") THEN {[k |-> "RCL"]} ELSE {}) \cup (IF K("RDC") THEN {[k |-> "RDC"]} ELSE {})
@@ -194,14 +285,25 @@ Codes == (IF K("RCL") THEN {[k |-> "RCL"]} ELSE {}) \cup (IF K("RDC") THEN {[k |
                             ELSE {})
          \cup (IF K("MID") THEN {[k |-> "MID", fg |-> 6, ul |-> FALSE, it |-> FALSE], [k |-> "MID", fg |-> 7, ul |-> TRUE, it |-> TRUE]} ELSE {})
          \cup (IF K("SPC") THEN {[k |-> "SPC", u |-> 174]} ELSE {})
+         \cup (IF K("FON") THEN {[k |-> "FON"]} ELSE {})
+         \cup (IF K("BAO") THEN {[k |-> "BAO", bg |-> 4, semi |-> FALSE], [k |-> "BAO", bg |-> 0, semi |-> TRUE]} ELSE {})
+         \cup (IF K("BAOX") THEN {[k |-> "BAO", bg |-> b, semi |-> t] : b \in 0..7, t \in BOOLEAN} ELSE {})
+         \cup (IF K("BT") THEN {[k |-> "BT"]} ELSE {})
+         \cup (IF K("FA") THEN {[k |-> "FA", ul |-> FALSE], [k |-> "FA", ul |-> TRUE]} ELSE {})
+         \cup (IF K("TR") THEN {[k |-> "TR"]} ELSE {}) \cup (IF K("RTD") THEN {[k |-> "RTD"]} ELSE {})
 
-\* Inputs outside the sub-language this module decides: Violated names the clauses a control pair breaks.  Each clause is a
-\* place where caption.c is known to leave the standard (doc/notes-C08.md lists them with the reason); the reference machine
-\* above still says what the standard demands there, and with the clause in Beyond the generators produce such inputs too
-\* (the check then reports the divergence as the known finding of that clause).
+\* Inputs outside the sub-language this module decides: Violated names the clauses a control pair for data channel d breaks.
+\* The clauses "move" .. "fresh" are places where caption.c is known to leave the standard (doc/notes-C08.md lists them with the
+\* reason); the reference machine above still says what the standard demands there, and with the clause in Beyond the generators
+\* produce such inputs too (the check then reports the divergence as the known finding of that clause).  The clauses after them
+\* are inputs on which the standard can be read two ways or which it forbids the transmitter to send.
 Cond(b, name) == IF b THEN {name} ELSE {}
-Violated(c, code) ==
-  LET s == ch[c] IN
+FClass(f) == IF lm[f] = 0 THEN "none" ELSE IF lm[f] > 4 THEN "text" ELSE "cap"
+Violated(d, code) ==
+  LET t == TargetOf(d, code)
+      s == ch[t]
+      cell == IF s.col > 1 THEN GetMem(s)[s.row][s.col - 1] ELSE Empty
+  IN
   \* "move": a PAC moves a roll-up window that is not empty (608: moved intact; caption.c erases it)
   Cond(code.k = "PAC" /\ s.mode = "roll" /\ ClampBase(code.row, s.roll) # s.base /\ s.disp # Mem0, "move")
   \* "resize": RUx with another depth while in roll-up mode (608: the window is resized; caption.c starts over on row 15)
@@ -214,12 +316,32 @@ Violated(c, code) ==
   \cup Cond(code.k = "RCL" /\ s.mode \in {"roll", "paint"} /\ s.disp # Mem0, "work")
   \cup Cond(code.k = "RDC" /\ s.mode # "paint" /\ (s.nond # Mem0 \/ s.disp # Mem0), "work")
   \* "fresh": a cursor relative code directly after EOC, without PAC (608: the cursor stays; caption.c puts it on row 15 column 1)
-  \cup Cond(code.k \in {"SPC", "MID", "BS", "DER", "TO"} /\ s.fresh /\ s.mode # "none", "fresh")
-Legal(c, code) == Violated(c, code) \subseteq Beyond
+  \cup Cond(code.k \in Relative /\ s.fresh /\ s.mode # "none", "fresh")
+  \* "xmode": a code that is no mode command, for a data channel whose own last mode command was of the other class (caption /
+  \* text) than the one the field is in now: it belongs to the text channel when the mode is kept per field, to the caption
+  \* channel when it is kept per data channel (608-B 7.7 is read both ways; transmitters resume a service with a mode command)
+  \cup Cond(code.k \notin Addressed /\ dm[d] # FClass(FieldOf(d))
+            /\ ~(dm[d] = "none" /\ FClass(FieldOf(d)) # "text"), "xmode")
+  \* "bgsp": 608-B 6.2 makes the transmitter send a standard space before a background / foreground attribute code (the code
+  \* backspaces over it); without that space - column 1, or another cell left of the cursor - the code would erase a character
+  \cup Cond(code.k \in BgKinds /\ s.mode # "none" /\ cell.u # 32, "bgsp")
+  \* "bg32": in column 32 the machine does not tell whether column 32 was written (then the space to replace is in column 32,
+  \* while Backspace erases column 31)
+  \cup Cond(code.k \in BgKinds /\ s.mode # "none" /\ s.col = 32, "bg32")
+  \* "fa": foreground black while italics or flash are on (6.2 does not say whether it ends them like a colour mid-row code)
+  \cup Cond(code.k = "FA" /\ s.mode # "none" /\ (s.pen.it \/ s.pen.fl), "fa")
+  \* "bgrow": a PAC into a row that holds cells with a background attribute (pen model: black opaque from the PAC on; positional
+  \* reading of 6.2: the attribute of the cells to the left holds to the end of the row)
+  \cup Cond(code.k = "PAC" /\ s.mode # "none" /\ s.tinted
+            /\ \E k \in Cols : LET x == GetMem(s)[PacRow(s, code)][k] IN x.u # 0 /\ (x.bg # 0 \/ x.op # Opaque), "bgrow")
+  \* "rowpen": see RowPen
+  \cup Cond(code.k \in Producing /\ RowPen(s), "rowpen")
+Legal(d, code) == Violated(d, code) \subseteq Beyond
 \* a step whose code class is in KS
-NextK(KS) == \/ \E c \in Chans, code \in {x \in Codes : x.k \in KS} : (IsRep(c, code) \/ Legal(c, code)) /\ Ctrl(c, code)
-             \/ "TEXT" \in KS /\ K("TEXT") /\ \E f \in {FieldOf(c) : c \in Chans}, c1 \in Chars, c2 \in Chars \cup {0} : Text(f, c1, c2)
-             \/ "NULL" \in KS /\ K("NULL") /\ \E f \in {FieldOf(c) : c \in Chans} : Null(f)
+NextK(KS) == \/ \E d \in DChans, code \in {x \in Codes : x.k \in KS} :
+                  TargetOf(d, code) \in Chans /\ (IsRep(d, code) \/ Legal(d, code)) /\ Ctrl(d, code)
+             \/ "TEXT" \in KS /\ K("TEXT") /\ \E f \in Fields, c1 \in Chars, c2 \in Chars \cup {0} : Text(f, c1, c2)
+             \/ "NULL" \in KS /\ K("NULL") /\ \E f \in Fields : Null(f)
 Next == NextK(AllKinds)
 Spec == Init /\ [][Next]_vars
 Bounded == np < MaxPairs
@@ -241,9 +363,34 @@ OneRep == [][(lastAct'.a = "Ctrl" /\ last = <<>>) => (last' # <<>> \/ FieldOf(la
 RepWindow == [][(lastAct'.a \in {"Text", "Null"} /\ lastAct'.f = 1) => last' = <<>>]_vars
 \* an executed DER leaves nothing at or right of the cursor; an executed BS changes at most the cell left of the cursor
 Executed(k) == lastAct'.a = "Ctrl" /\ lastAct'.code.k = k /\ ~IsRep(lastAct'.c, lastAct'.code)
-DerClears == [][Executed("DER") => LET s == ch'[lastAct'.c] IN
+DerClears == [][Executed("DER") => LET s == ch'[lastAct'.t] IN
                    s.mode # "none" => \A k \in s.col..32 : GetMem(s)[s.row][k] = Empty]_vars
-BsOne == [][Executed("BS") => LET s == ch[lastAct'.c] t == ch'[lastAct'.c] IN
+BsOne == [][Executed("BS") => LET s == ch[lastAct'.t] t == ch'[lastAct'.t] IN
                /\ t.col = (IF s.mode = "none" \/ s.col = 1 THEN s.col ELSE s.col - 1) /\ t.row = s.row
                /\ \A r \in 0..14, k \in Cols : (r # s.row \/ k # s.col - 1) => (t.disp[r][k] = s.disp[r][k] /\ t.nond[r][k] = s.nond[r][k])]_vars
+\* text channels: always in text mode, nothing ever reaches a non-displayed memory, only CR and TR change the cursor row
+TintedOK == \A c \in Chans : ~ch[c].tinted =>
+               /\ ch[c].pen.bg = 0 /\ ch[c].pen.op = Opaque
+               /\ \A r \in 0..14, k \in Cols : \A x \in {ch[c].disp[r][k], ch[c].nond[r][k]} : x.u # 0 => (x.bg = 0 /\ x.op = Opaque)
+TextOK == \A c \in Chans : c > 4 => ch[c].mode = "text" /\ ch[c].nond = Mem0
+TextRow == [][\A c \in Chans : (c > 4 /\ ch'[c].row # ch[c].row) => (lastAct'.a = "Ctrl" /\ lastAct'.code.k \in {"CR", "TR"})]_vars
+\* an executed TR leaves an empty text memory with the cursor on the top left
+RestartHomes == [][Executed("TR") => LET s == ch'[lastAct'.t] IN s.disp = Mem0 /\ s.row = 0 /\ s.col = 1]_vars
+\* a pair changes one channel at most, a channel of its own field; EDM / ENM never touch a text channel and never change
+\* the mode of the field (608-B Annex B.7)
+OneChannel == [][\A c \in Chans : ch'[c] # ch[c] =>
+                    /\ lastAct'.a \in {"Ctrl", "Text"}
+                    /\ FieldOf(c) = (IF lastAct'.a = "Ctrl" THEN FieldOf(lastAct'.c) ELSE lastAct'.f)
+                    /\ lastAct'.a = "Ctrl" => (c = lastAct'.t /\ (lastAct'.code.k \in {"EDM", "ENM"} => c <= 4 /\ lm' = lm))]_vars
+\* flash is off after every executed PAC and mid-row code, on after Flash On; a PAC leaves a black opaque background
+FlashRule == [][/\ (Executed("PAC") \/ Executed("MID")) => (ch'[lastAct'.t].mode = "none" \/ ~ch'[lastAct'.t].pen.fl)
+                /\ Executed("FON") => (ch'[lastAct'.t].mode = "none" \/ ch'[lastAct'.t].pen.fl)
+                /\ Executed("PAC") => (ch'[lastAct'.t].mode = "none" \/ (ch'[lastAct'.t].pen.bg = 0 /\ ch'[lastAct'.t].pen.op = Opaque))]_vars
+\* a legal background / foreground attribute code changes exactly the cell left of the cursor (a space before and after)
+\* and leaves the cursor where it was
+BackspaceIn == [][(Executed("BAO") \/ Executed("BT") \/ Executed("FA")) =>
+                     LET s == ch[lastAct'.t] t == ch'[lastAct'.t] IN
+                     s.mode # "none" => /\ t.col = s.col /\ t.row = s.row
+                                        /\ GetMem(t)[s.row][s.col - 1].u = 32 /\ GetMem(s)[s.row][s.col - 1].u = 32
+                                        /\ \A r \in 0..14, k \in Cols : (r # s.row \/ k # s.col - 1) => GetMem(t)[r][k] = GetMem(s)[r][k]]_vars
 =============================================================================
